@@ -191,6 +191,19 @@ class MgrModel:
         return out
 
 
+def _wiring_consistent(m):
+    """Used ONLY to recognise a half-done interrupted mutator: the manager listens to the default-unit
+    changes of exactly the current system."""
+    try:
+        cur = m._current
+        for s in list(m.GetUnitSystems().values()) + ([cur] if cur is not None else []):
+            if bool(s.on_default_unit.Contains(m._CategoryUnitChange)) != (s is cur):
+                return False
+        return True
+    except Exception:
+        return False
+
+
 def real_state(m):
     systems = []
     for sid, s in m.GetUnitSystems().items():
@@ -230,7 +243,7 @@ class MgrGen:
         return d
 
     def __call__(self, sim):
-        if self.n >= self.cfg["n_steps"]:
+        if self.n >= self.cfg["n_steps"] or sim.user.get("halted"):
             return None
         self.n += 1
         rng = self.rng
@@ -243,6 +256,15 @@ class MgrGen:
             if op is not None:
                 break
             kind = rng.choice(["admin", "query", "listener"])
+        if (
+            not op.get("f")
+            and (op.get("mg") or {}).get("kind") in ("add", "remove", "select", "template", "setunit", "rmcat")
+            and self.cfg.get("intr_mut_rate", 0) > 0
+            and rng.random() < self.cfg["intr_mut_rate"]
+        ):
+            # F7 inside a mutator (see MgrMonitor.after)
+            op["intr"] = rng.randint(1, 40)
+            op["f"] = "F7.interrupt"
         if kind == "query" and not op.get("f") and self.cfg.get("intr_rate", 0) > 0 and rng.random() < self.cfg["intr_rate"]:
             # F7: KeyboardInterrupt at the k-th executed barril line inside a read-only manager call
             op["intr"] = int(min(200, max(1, rng.expovariate(1.0 / 12))))
@@ -410,6 +432,8 @@ class MgrMonitor(Mon.Monitor):
         self.cfg = cfg
 
     def before(self, sim, op):
+        if sim.user.get("halted"):
+            return
         m = _mgr()
         self.pre_real = real_state(m)
         self.pre_model = sim.user["model"].state()
@@ -420,7 +444,7 @@ class MgrMonitor(Mon.Monitor):
         from barril.units.unit_database import UnitDatabase
 
         mg = op.get("mg")
-        if mg is None:
+        if mg is None or sim.user.get("halted"):
             return
         model = sim.user["model"]
         m = _mgr()
@@ -433,8 +457,15 @@ class MgrMonitor(Mon.Monitor):
         must_reject = False
         result_check = None
 
-        def null_or(sid):
-            return sid
+        # F7 inside a manager MUTATOR: nothing is demanded of the call itself.  Afterwards the
+        # manager is as before, as after the completed call, or half-done; in the first two cases
+        # the run goes on against the model in that state, in the third it ends here.
+        intr_mut = out[0] == "intr" and kind in ("add", "remove", "select", "template", "setunit", "rmcat", "caption", "readonly")
+        pre_model = None
+        if intr_mut:
+            import copy
+
+            pre_model = copy.deepcopy(model)
 
         # ---- transition rules = the statement's sentences
         if kind == "add":
@@ -462,7 +493,7 @@ class MgrMonitor(Mon.Monitor):
                     real_cur = m.GetCurrent().GetId()
                     if model.systems:
                         new = real_cur if real_cur in model.systems else next(iter(model.systems))
-                        sim.check(real_cur in model.systems, "C17.remove_reselects", {"case": "current_not_registered_after_remove"}, step, "after removing the current system, current is %r (registered: %r)" % (real_cur, list(model.systems)))
+                        sim.check(intr_mut or real_cur in model.systems, "C17.remove_reselects", {"case": "current_not_registered_after_remove"}, step, "after removing the current system, current is %r (registered: %r)" % (real_cur, list(model.systems)))
                     else:
                         new = None
                     model.current = new
@@ -547,6 +578,24 @@ class MgrMonitor(Mon.Monitor):
         elif kind == "larm":
             model.listeners[mg["name"]]["armed"] = True
 
+        if intr_mut:
+            now = real_state(m)
+            if not _wiring_consistent(m):
+                # half-done in a way the public getters do not show (the manager is not, or not
+                # only, subscribed to the current system): nothing is demanded, the run ends here
+                now = None
+            if now == model.state():
+                sim.count("probe:interrupted_mutator_applied")
+            elif now == pre_model.state():
+                model.systems, model.current, model.template = pre_model.systems, pre_model.current, pre_model.template
+                sim.count("probe:interrupted_mutator_not_applied")
+            else:
+                sim.count("probe:interrupted_mutator_half_done")
+                sim.user["halted"] = True
+            for n, l in model.listeners.items():
+                if l["alive"] and n in LISTENERS:
+                    l["armed"] = LISTENERS[n].raise_next
+            return
         fault = op.get("f")
         sig0 = {"op": _short(op["k"])}
         # ---- what a listener sees through the manager while it is being notified is the new state
@@ -692,6 +741,7 @@ class C17:
             "listeners": LISTENER_NAMES[: rng.randint(1, 4)],
             "n_steps": rng.randint(lo, hi),
             "intr_rate": rng.choice([0, 0, 0.1, 0.25]),
+            "intr_mut_rate": rng.choice([0, 0, 0.05, 0.15]),
             "weights": {
                 "admin": rng.choice([2, 3, 4]),
                 "user": rng.choice([1, 2, 3]),
